@@ -262,6 +262,8 @@ def main():
         open(neighbour, "wb").write(b"neighbour file that nobody named")
         if spec["dest"] == "existing":
             open(dest, "wb").write(b"previous complete destination content " * 50)
+        elif spec["dest"] == "existing-empty":
+            open(dest, "wb").close()      # an existing file of length 0 is an existing file
         before = {"base": sha(base), "dest": sha(dest), "neighbour": sha(neighbour)}
         kw = {}
         op = spec["op"]
